@@ -687,6 +687,9 @@ func (bal *Balancer) balanceBlock(blkid arvados.SizedDigest, blk *BlockState) ba
 		// trashing replicas that aren't optimal positions for
 		// any storage class.
 		protMnt := map[*KeepMount]bool{}
+		// Backend devices of protected positions (a device
+		// mounted on several servers is one physical copy).
+		protDev := map[string]bool{}
 		// Replication planned so far (corresponds to wantMnt).
 		replWant := 0
 		// Protected replication (corresponds to protMnt).
@@ -702,9 +705,18 @@ func (bal *Balancer) balanceBlock(blkid arvados.SizedDigest, blk *BlockState) ba
 				// different server.
 				return false
 			}
-			if replProt < desired && slot.repl != nil && !protMnt[slot.mnt] {
+			if slot.repl != nil && protDev[slot.mnt.DeviceID] {
+				// Another view of a copy that is
+				// already protected: protect it too,
+				// but don't count it again.
 				unsafeToDelete[slot.repl.Mtime] = true
 				protMnt[slot.mnt] = true
+			} else if replProt < desired && slot.repl != nil && !protMnt[slot.mnt] {
+				unsafeToDelete[slot.repl.Mtime] = true
+				protMnt[slot.mnt] = true
+				if slot.mnt.DeviceID != "" {
+					protDev[slot.mnt.DeviceID] = true
+				}
 				replProt += slot.mnt.Replication
 			}
 			if replWant < desired && (slot.repl != nil || !slot.mnt.ReadOnly) {
@@ -739,9 +751,13 @@ func (bal *Balancer) balanceBlock(blkid arvados.SizedDigest, blk *BlockState) ba
 
 		if !underreplicated {
 			safe := 0
+			safeDev := map[string]bool{}
 			for _, slot := range slots {
-				if slot.repl == nil || !bal.mountsByClass[class][slot.mnt] {
+				if slot.repl == nil || !bal.mountsByClass[class][slot.mnt] || safeDev[slot.mnt.DeviceID] {
 					continue
+				}
+				if slot.mnt.DeviceID != "" {
+					safeDev[slot.mnt.DeviceID] = true
 				}
 				if safe += slot.mnt.Replication; safe >= desired {
 					break
